@@ -212,6 +212,7 @@ structure InvE (cfg : Cfg) (s : State) : Prop where
   killerDone : (s.st (.root .daemonKiller)).ended = true → s.st (.root .daemonKiller) ≠ .failed →
     ∀ d, d < s.nDaemons → s.stopReq d = true → s.coop d = true → s.dm d ≠ .running
   stopReqRange : ∀ d, s.nDaemons ≤ d → s.stopReq d = false
+  sweptReq : s.killed = true → ∀ d, d < s.nDaemons → s.dm d = .running → s.stopReq d = true
   coreStopReq : ∀ p, s.sc = .coreStopping p → s.core.live = true → s.coreCreq = true
   scOverCore : ∀ p, s.sc = .over p → s.core.live = false ∨ p ≠ .none
   goneSt : ∀ i, s.gone i = true → s.st (.sub i) ≠ .running
